@@ -78,7 +78,7 @@ ALPHA = {
 }
 KEYS = ["p", "q", "r", "f"]
 
-NAMES = ["name", "crs", "na\"me", "na\\me", "näme"]
+NAMES = ["name", "crs", "na\"me", "na\\me", "näme", "pe", ""]   # 'pe' and '' are substrings of "type"
 MVALUES = ["v \"é\" \\", 1.5, None, [1, "a", None, [2.5, {"k": False}]], {"type": "name", "properties": {"na\"me": "urn:x", "n": [1, None]}}]
 EXTRA_NAMES_THOROUGH = ["items", "a\nb", ""]
 
